@@ -260,6 +260,11 @@ def eager_contraction_generic_to_tuple(red_op, bin_op, reduced_vars, *terms):
 
 @eager.register(Contraction, AssociativeOp, AssociativeOp, frozenset, tuple)
 def eager_contraction_generic_recursive(red_op, bin_op, reduced_vars, terms):
+    if red_op is bin_op:
+        # Pushing a reduction into a single term needs bin_op to distribute over
+        # red_op; when they coincide every term must be reduced (see normalize).
+        return None
+
     # Count the number of terms in which each variable is reduced.
     counts = Counter()
     for term in terms:
